@@ -196,4 +196,6 @@ def run(model, R):
             it = env.expand(g.iter)
             ok = chain(it) == [init.params[0], 'atoms'] and name_is(v.elt, avar)
             R.check(ok, 'ATOMS', init, a, 'ranges over the lattice atoms in order, listing the atom itself', f'for a in {init.params[0]}.atoms', src(g.iter))
+    from .common import no_unpickle_shortcut
+    R.guard('LABELLING', None, '_init call sites', no_unpickle_shortcut, model, R, 'LABELLING')
     return __doc__.strip()
